@@ -300,6 +300,14 @@ def ob_event_flow(run, oid):
                 if c.name in pv["calls"]:
                     consumers.append(d.bb)
             o.check(bool(consumers) and b.always_followed_by(c.bb, consumers), key + "|consumed", "its FinalizationEvent is always handed to handle_finalization", c.span)
+    # every registered block's parent link reaches the finality tracker, whatever else add_block finds out about the block (a link that is
+    # skipped on some path - e.g. behind an early return for blocks that are already safe-to-notar - is never learnt: ancestors stay undecided)
+    for b in prog.family("<" + PI + " as " + POOL + "Pool>::add_block"):
+        if not b.is_closure or not b.defpath.endswith("add_block::{closure#0}"):
+            continue
+        ap = b.calls_to(FT + "::add_parent")
+        o.check(len(ap) == 1 and b.always_followed_by(0, [c.bb for c in ap]) and not D.extra_guards(prog, b, ap[0].bb, []), "Pool::add_block|add_parent|always",
+                "add_block hands (block, parent) to FinalityTracker::add_parent on every path", ap[0].span if ap else b.span)
     for b in prog.family(PI + "::handle_finalization"):
         if not b.is_closure:
             continue
@@ -604,6 +612,24 @@ def ob_implicit_sources(run, oid):
                             pv = b.provenance(q)
                             if any(n == "status" for (_ow, n) in pv["fields"]):
                                 g = a
+            if g is None:
+                # the condition may be folded into a flag: `let is_fin = matches!(status.get(..), Some(Finalized(h) | ImplicitlyFinalized(h)) if &hash == h)`:
+                # then EVERY place that sets the flag to true must be behind the comparison
+                def finalized_eq(a):
+                    if a[0] == "eq" and a[2] is True:
+                        x, y = a[1]
+                        for (p_, q_) in ((x, y), (y, x)):
+                            if K.mentions_arg(b, p_, 2) and not K.mentions_arg(b, q_, 2) and any(n == "status" for (_ow, n) in b.provenance(q_)["fields"]):
+                                return True
+                    return False
+                for a in atoms:
+                    if a[0] == "bool" and a[2] is True and isinstance(a[1][0], tuple) and a[1][0][0] == "local":
+                        trues = []
+                        for d_ in b.defs().get(a[1][0][1], []):
+                            if d_[0] == "stmt" and K.const_eval(b.rvalue_term(d_[3]["rv"])) == 1:
+                                trues.append(any(finalized_eq(x) for x in G.guard_atoms(b, d_[1], prog)) or D.guarded_on_every_path(prog, b, d_[1], finalized_eq))
+                        if trues and all(trues):
+                            g = a
             o.check(g is not None, key + "|same-block-as-finalized", "add_parent propagates only when the finalized hash recorded for the slot equals this block's hash", c.span,
                     {"guards": G.atoms_show(atoms)})
             o.check(K.is_arg(b, par, 3) and K.mentions_arg(b, b.operand_term(c.args[1]), 2), key + "|args", "handle_implicitly_finalized(block.slot, parent, ..) with add_parent's own arguments", c.span)
